@@ -3,6 +3,12 @@ Driver commands for the compositor model (C11, C13).
 
   comp.pixel      <request>   -> ok  c0,c1,... <shape> <alpha>     (tabulating evaluator; = model, `compositeDocF_eq`)
   comp.pixel.ref  <request>   -> the same through `compositeDoc` itself (exponential in the stack length; small trees only)
+  comp.spec       <request>   -> ok  p0,p1,... <shape> <alpha>     the published model (`Model/CompositeSpec.lean`, tabulating
+                                 evaluator = `specDoc`, `specDocF_eq`) with the group-alpha rule of a knockout element AS CODED:
+                                 group colour PREMULTIPLIED by the group alpha, group shape, group alpha.
+                                 `compositor_refines_spec_coded_knockout_doc`: p_i = c_i * alpha of `comp.pixel`, same shape, alpha.
+  comp.spec.pub   <request>   -> the same with the PUBLISHED rule (PDF 1.7 11.4.6); equal to `comp.spec` on trees without
+                                 knockout flags (`compositor_refines_spec_partial_doc`)
 
 One request = ONE tab field of space-separated tokens (rationals `n/d` or `n`, booleans `0`/`1`):
 
@@ -23,6 +29,7 @@ A non-separable mode in a one-channel document is answered `err Unsupported` (th
 import Driver.Util
 import Driver.Blend
 import PsdVerif.Model.CompositeEval
+import PsdVerif.Model.CompositeSpecEval
 
 namespace Driver.Composite
 open PsdVerif PsdVerif.Composite PsdVerif.Blend Driver Driver.Blend
@@ -210,9 +217,24 @@ def run (fast : Bool) (args : List String) : String :=
       else answer (compositeDoc B q.V q.x q.y q.color q.alpha q.layers) q.nch
   | _ => badRequest
 
+/-- the published model on the same request (the backdrop colour of the request is straight: premultiply it) -/
+def runSpec (rule : KoRule) (args : List String) : String :=
+  match args with
+  | [field] =>
+    match pRequest ((field.splitOn " ").filter (fun t => t != "")) with
+    | none => badRequest
+    | some q =>
+      if q.cm == .l && listUsesNonSep q.layers then "err\tUnsupported" else
+      let B := blendOf q.cm
+      let P : Color := fun ch => q.alpha * q.color ch
+      answer (specDocF rule q.nch B q.V q.x q.y P q.alpha q.layers) q.nch
+  | _ => badRequest
+
 def cmds : List (String × Cmd) := [
   ("comp.pixel", run true),
-  ("comp.pixel.ref", run false)
+  ("comp.pixel.ref", run false),
+  ("comp.spec", runSpec .asCoded),
+  ("comp.spec.pub", runSpec .published)
 ]
 
 end Driver.Composite
